@@ -77,6 +77,10 @@ def gen(rng, i, tier):
     n = 1 if rng.random() < 0.2 else int(rng.integers(2, 40))
     q = np.round(int(rng.integers(5, 300)) / 100 + np.cumsum(rng.integers(1, 6, n)) / 100, 2)
     s = 1 + rng.normal(size=n) * 0.3
+    if rng.random() < 0.25:
+        # a merged grid whose first bin is Q = 0 (where the merged S(Q) is the conventional 1): that row is data like any other
+        q = np.concatenate([[0.0], q])
+        s = np.concatenate([[1.0], s])
     return dict(kind="reingest", writer="write_out_merged_sq", w=0, x=tolist(q), y=tolist(s), explicit=False, stem="r%d" % int(rng.integers(0, 10**6)), rsf="g(r)")
 
 
